@@ -147,6 +147,7 @@ type joinOps[S comparable] struct {
 	next     func(s S) func() (int, bool)
 	sentinel func(i int) S
 	closeFn  func(s S)
+	decoy    func(pulled *int, items []int) S
 }
 
 var iterJoinOps = joinOps[iterator.Iterator[int]]{
@@ -156,6 +157,9 @@ var iterJoinOps = joinOps[iterator.Iterator[int]]{
 	next:     func(s iterator.Iterator[int]) func() (int, bool) { return s.Next },
 	sentinel: iterSentinel,
 	closeFn:  func(iterator.Iterator[int]) {},
+	decoy: func(pulled *int, items []int) iterator.Iterator[int] {
+		return &countingIter{items: slices.Clone(items), pulled: pulled}
+	},
 }
 
 var streamJoinOps = joinOps[stream.Stream[int]]{
@@ -165,6 +169,9 @@ var streamJoinOps = joinOps[stream.Stream[int]]{
 	next:     func(s stream.Stream[int]) func() (int, bool) { return streamNext(s) },
 	sentinel: streamSentinel,
 	closeFn:  func(s stream.Stream[int]) { s.Close() },
+	decoy: func(pulled *int, items []int) stream.Stream[int] {
+		return &countingStream{countingIter{items: slices.Clone(items), pulled: pulled}}
+	},
 }
 
 // consume checks that next yields exactly want, then reports the end four times; after is called
@@ -304,4 +311,122 @@ func runNestedJoins(a *acc, parts [][]int) {
 	}
 	nestedJoins(a, iterJoinOps, parts)
 	nestedJoins(a, streamJoinOps, parts)
+}
+
+// ---------------------------------------------------------------------------------------------
+// The mirror image: the CALLER reuses its argument slice after the call. Join takes a variadic
+// list; a caller that built the list in a slice may overwrite that slice afterwards. The result
+// must keep yielding the ORIGINAL sources (fixed in /repo by 2c98897: the list is copied). The
+// slice is overwritten - every cell, and the spare capacity - with decoy sources yielding -901,
+// -902, either right after construction or after j requests; the output must be the reference over
+// the original parts and no decoy may ever be pulled.
+
+func callerReusesArgs[S comparable](a *acc, ops joinOps[S], parts [][]int) {
+	want := refConcat(parts)
+	total, k := len(want), len(parts)
+	for j := 0; j <= total+1; j++ {
+		if a.failed {
+			return
+		}
+		a.evals++
+		a.count("triples by operation", "Join", 1)
+		a.count("argument integrity", ops.pkg+".Join: caller overwrites its argument slice with decoys after the call / after j requests", 1)
+		kind, what := "", ""
+		a.arm(total + 2*k + 16)
+		pan := vkit.Try(func() {
+			arr := make([]S, guardPre+k+guardPost)
+			for i := range arr {
+				arr[i] = ops.sentinel(i)
+			}
+			for i, p := range parts {
+				arr[guardPre+i] = ops.leaf(a, fmt.Sprintf("part%d", i), p)
+			}
+			joined := ops.join(arr[guardPre : guardPre+k]...)
+			next := ops.next(joined)
+			for i := 1; i <= j; i++ {
+				x, ok := next()
+				a.requests++
+				if i <= total && (!ok || x != want[i-1]) {
+					kind, what = "value", fmt.Sprintf("before the overwrite, request %d returned (%d, %v), reference %d", i, x, ok, want[i-1])
+					return
+				}
+				if i > total && ok {
+					kind, what = "extra-item", fmt.Sprintf("before the overwrite, request %d returned %d after the reference's end", i, x)
+					return
+				}
+			}
+			// the caller reuses its slice
+			decoyPulled := 0
+			decoyItems := []int{-901, -902}
+			decoys := make([]S, len(arr))
+			for i := range arr {
+				decoys[i] = ops.decoy(&decoyPulled, decoyItems)
+				arr[i] = decoys[i]
+			}
+			rest := want[min(j, total):]
+			if j > total {
+				rest = nil
+			}
+			if kind, what = consume(a, next, rest, func() string {
+				if decoyPulled > 0 {
+					return fmt.Sprintf("a decoy the caller wrote into its own slice AFTER the call was pulled %d time(s)", decoyPulled)
+				}
+				return ""
+			}); kind != "" {
+				if kind == "argument-modified" {
+					kind = "caller-slice-aliased"
+				}
+				what = fmt.Sprintf("after the caller overwrote its argument slice (following %d request(s)): %s", j, what)
+				return
+			}
+			ops.closeFn(joined)
+		})
+		if pan != nil {
+			kind, what = panicKind(pan), panicMsg(pan)
+		}
+		if kind != "" {
+			if kind == "value" || kind == "extra-item" || kind == "early-end" {
+				kind = "caller-slice-aliased"
+			}
+			a.fail(kind, ops.pkg, "Join", fmt.Sprintf("%s.Join(parts...) with parts=%v built in a slice the caller reuses: %s", ops.pkg, parts, what),
+				map[string]any{"parts": parts, "overwritten_after_requests": j, "decoy_items": []int{-901, -902}})
+			return
+		}
+		a.dist = append(a.dist, fmt.Sprint("Join-caller-reuse|", ops.pkg, j, parts))
+	}
+}
+
+// countingIter / countingStream: decoys; every pull is counted.
+type countingIter struct {
+	items  []int
+	pulled *int
+}
+
+func (c *countingIter) Next() (int, bool) {
+	*c.pulled++
+	if len(c.items) == 0 {
+		return 0, false
+	}
+	x := c.items[0]
+	c.items = c.items[1:]
+	return x, true
+}
+
+type countingStream struct{ it countingIter }
+
+func (c *countingStream) Next(context.Context) (int, error) {
+	x, ok := c.it.Next()
+	if !ok {
+		return 0, stream.End
+	}
+	return x, nil
+}
+func (c *countingStream) Close() {}
+
+func runCallerReuse(a *acc, parts [][]int) {
+	if len(parts) == 0 {
+		return
+	}
+	callerReusesArgs(a, iterJoinOps, parts)
+	callerReusesArgs(a, streamJoinOps, parts)
 }
